@@ -59,7 +59,7 @@ def gen_plan(seed, tier="quick"):
         return syncsim.gen_plan(r, eng, seed, PROP)
     driver = eng
     plan = {"engine": "drvsim", "property": PROP, "driver": driver, "seed": seed,
-            "knobs": plans.gen_knobs(r, driver),
+            "knobs": plans.gen_knobs(r, driver, allow_batch=True),
             "callers": plans.gen_callers(r, driver, r.choice([1, 2, 2, 3]), 3,
                                          mix=(0.6, 0.15, 0.25), allow_raise=False,
                                          allow_cancel=False,
@@ -110,7 +110,7 @@ def judge_response(V, drv, u, cmd, out, result, late, all_values, serial, when=N
         if raw is None:
             if not late:
                 V("answer-lost", "unit %s: %s bus answered %d in time but send returned 'no answer'" % (
-                    u, cmd, out[1]), site=kind)
+                    u, cmd, out[1]), site=kind + ("/" + when(None) if when else ""))
         elif raw.error or raw.as_integer != out[1]:
             c = _who(raw, all_values, out)
             V(c, "unit %s: %s bus answered %d but got %s" % (u, cmd, out[1], raw),
@@ -132,6 +132,16 @@ def stale_site(rr, u, spec, raw, occurrence=0):
     """For the serial gateways: had the foreign value already reached the host
     when the victim's command was written (a flush at that moment would have
     removed it), or did it arrive afterwards (matching by arrival order only)?"""
+    if raw is None:
+        # answer lost: was another master's error frame taken for our confirmation?
+        for s_ in rr.dev.sends:
+            if s_["unit"] == u and (s_.get("bits"), s_.get("value")) == (spec[0], spec[1]):
+                # (the shift caused by one consumed error frame persists for the
+                # following commands until an idle flush)
+                hi = s_.get("conf_arrival_us") or (s_["t_us"] + 200000)
+                if any(t <= hi for t in getattr(rr.dev, "foreign_errors", [])):
+                    return "error-frame-taken-as-confirmation"
+        return "plain"
     arr = getattr(rr.dev, "answer_arrivals", {}).get(raw.as_integer)
     t_write = None
     k = 0
@@ -165,6 +175,10 @@ def judge(rr):
         # confirmation time - C17's quantifier, not C16's; the stale
         # confirmation would touch every later operation, so the run is set aside
         rr.world.probe("run-set-aside-slow-confirm")
+        return out
+    if serial and any(s_.get("ambiguous") for s_ in rr.dev.sends):
+        # batching moved an answer into the 80-120 % band of the receive timeout
+        rr.world.probe("run-set-aside-ambiguous-answer-time")
         return out
     if rr.deadlock or rr.stepcap or rr.pending:
         V("send-never-returns", "deadlock=%s pending=%s" % (rr.deadlock, rr.pending))
